@@ -21,7 +21,9 @@ CONFIGS = {
 
 
 class Finding:
-    def __init__(self, prop, rule, fn, instance, msg, details=None):
+    def __init__(self, prop, rule, fn, instance, msg, details=None, alt=None):
+        self.more_alt = []
+        self.alt = alt      # optional second identity (rule, fn, instance): a known-findings entry under either key matches
         self.prop = prop
         self.rule = rule
         self.fn = fn
@@ -32,6 +34,10 @@ class Finding:
     @property
     def key(self):
         return ('%s/%s/%s/%s' % (self.prop, self.rule, self.fn, self.instance)).replace(' ', '_')
+
+    @property
+    def alt_key(self):
+        return ('%s/%s/%s/%s' % ((self.prop,) + tuple(self.alt))).replace(' ', '_') if self.alt else None
 
 
 class Ctx:
@@ -88,10 +94,12 @@ class Ctx:
     def count(self, k, n=1):
         self.cov[k] = self.cov.get(k, 0) + n
 
-    def finding(self, rule, fn, instance, msg, details=None, prop=None):
-        f = Finding(prop or self.prop, rule, fn, instance, msg, details)
+    def finding(self, rule, fn, instance, msg, details=None, prop=None, alt=None):
+        f = Finding(prop or self.prop, rule, fn, instance, msg, details, alt)
         for g in self.findings:
             if g.key == f.key:
+                if f.alt_key and f.alt_key not in g.more_alt and f.alt_key != g.alt_key:
+                    g.more_alt.append(f.alt_key)
                 return g
         self.findings.append(f)
         return f
@@ -136,18 +144,28 @@ def finish(ctx, level, explanation, extra_cov=None):
     kn = 0
     rdir = os.path.join(os.environ.get('VERIF_REPLAY_DIR') or os.path.join(VERIF, 'replay'), ctx.prop)
     for f in ctx.findings:
-        if f.key in known:
+        if os.environ.get('VERIF_SHOW_KEYS'):
+            for a in [f.alt_key] + f.more_alt:
+                if a:
+                    print('ENTRY-KEY-OF %s %s' % (f.key, a))
+        # a finding is known when its site identity is listed, or when every way it was reached (entry identity) is listed
+        alts = [a for a in [f.alt_key] + f.more_alt if a]
+        kk = f.key if f.key in known else (alts[0] if alts and all(a in known for a in alts) else None)
+        if kk:
             kn += 1
-            print('KNOWN-FINDING: property=%s key=%s %s' % (f.prop, f.key, known[f.key].get('what', f.msg)))
+            print('KNOWN-FINDING: property=%s key=%s %s' % (f.prop, kk, known[kk].get('what', f.msg)))
             continue
         viol += 1
         os.makedirs(rdir, exist_ok=True)
         h = hashlib.sha1(f.key.encode()).hexdigest()[:12]
         rp = os.path.join(rdir, '%s.json' % h)
         with open(rp, 'w') as fh:
-            json.dump({'property': f.prop, 'key': f.key, 'rule': f.rule, 'function': f.fn, 'instance': f.instance,
+            json.dump({'property': f.prop, 'key': f.key, 'entry_keys': [a for a in [f.alt_key] + f.more_alt if a], 'rule': f.rule, 'function': f.fn, 'instance': f.instance,
                        'message': f.msg, 'details': f.details, 'tier': ctx.tier}, fh, indent=1, default=str)
         print('FINDING %s: %s' % (f.key, f.msg))
+        for a in [f.alt_key] + f.more_alt:
+            if a and a not in known:
+                print('  ENTRY-KEY %s' % a)
         print('VIOLATION property=%s replay=%s' % (f.prop, rp))
     wall = time.time() - ctx.t0
     cov = dict(ctx.cov)
